@@ -2,7 +2,7 @@ import subprocess, re
 p='/verif/DESIGN.md'
 s=open(p).read()
 table=subprocess.run(['python3','/verif/tools_seed_table.py'],capture_output=True,text=True).stdout
-sec=f'''### 10.6 Independently seeded changes (`/verif/seeded/`) and which checks catch them
+sec='''### 10.6 Independently seeded changes (`/verif/seeded/`) and which checks catch them
 
 Fresh sub-agents were given only the text of one property and a scratch worktree of `/repo`
 (nothing from `/verif`) and asked for a change that breaks the property, still passes the test
@@ -20,10 +20,21 @@ which checks report it.
 * S01 (result cast to the dtype of the incoming estimates) was *missed*: `.astype` was
   value-transparent in the kernel IR.  Now only a cast to a statically named integer dtype inside a
   `Problem` is transparent; any other cast stays in the term, so the sweep no longer equals the
-  oracle.  The same refinement caught S-C02b (successor cast to int32 before the index lookup) at once.
+  oracle.  The same refinement caught S28 (successor cast to int32 before the index lookup) at once.
 * S22 (`restore()` reading through the solver's own manager, i.e. the directory recorded in
   config.yaml) was *missed*: no rule tied the restoring manager to the directory argument.  R10.3
   gained that clause.
+* S35 (Hendrix `pu[0, y]` computed as `p**x`-style shortcut that is only right for y = 0) was *missed*
+  by the structural R16.6; the `pu` / `pz` table builders are now compared as exact terms.
+* S41 (history buffer `np.zeros(..., dtype=self.values.dtype)`) was *missed*: buffer constructors
+  dropped their dtype.  A dtype that is not a statically named one now stays in the term of
+  `zeros` / `zeros_like` (reported by C07 R7.8, and S39 - the same idea through `zeros_like(initial_values)` -
+  at once); in addition R20.11 forbids runtime-derived or narrow dtypes anywhere in solver modules.
+* The third seed for C09 (`self.gain = 0` instead of `0.0`: the fresh solver's state is the Orbax
+  restore *template*, an int leaf makes the saved float gain come back truncated) was *missed*: nothing
+  related the template to the declared state types.  R9.6 / R10.7 now require every write of a
+  checkpointed scalar (outside the restore method) to have the kind its State/Info dataclass declares,
+  and array leaves not to be built with a narrow dtype.
 * S02, S04, S12 first ended in ANALYSIS-ERROR (exit 2: neither a verdict nor a false alarm): the
   solve-loop anchor was keyed on the literal `range(max_iterations)`, the builtin `bool` was unknown
   to the interpreter, and `np.tile` is outside the symbolic space vocabulary.  The sweep loop is now
@@ -36,25 +47,103 @@ which checks report it.
   benign variants b39 / b40 keep them so.
 * S09, S10 are reported by the checks of neighbouring properties (C18 / C09 / C10) because the broken
   mechanism lives there; C03 now also files the pad/strip instances itself (R3.3).
-
-Every seed of the table is also in the regression catalogue (`selftest/mutants.py`, variants
-m104-m113 and the earlier ones they coincide with).
+* A later rewrite of R10.3 (name-independent step protocol, section 10.9) silently stopped reporting S05;
+  `tools_seed_regress.py` caught it the same hour.  Since then **every stored seed is a standing variant
+  of the thorough tier**: `selftest/seeds.py` applies each `seeded/*/patch.diff` in memory and the checks
+  named in its `meta.json` must still report it.
 
 ### 10.7 Metamorphic robustness (no alarm on code where the property holds)
 
-`mdpaxlint/selftest/metamorphic.py` applies six behaviour-preserving **whole-tree** transformations
-to today's source in memory - T1 rename every local variable, T2 swap the operands of every
-arithmetic `+` / `*`, T3 flip every `<` / `<=` / `>` / `>=`, T4 `ast.unparse` every module, T5 a log
-line after every simple statement of non-kernel functions, T6 `return <expr>` through a local - and
-every check must stay silent (114 transformation x property pairs; part of every thorough run;
-`tools_metamorphic.py` runs them all).  The first run produced ten alarms (rules keyed on local
-names such as `solver` / `config` / `state`, on operand order in text matches, on the orientation of
-a comparison, on `return <call>` shapes); all were rewritten to be name-, order- and shape-independent
-(`returned_expr`, `_var_assigned_from`, term-based instead of text-based matches, mirrored
-comparisons in the interval interpreter).  `ruff format --line-length 140` over the whole tree is
-silent as well.
+`mdpaxlint/selftest/metamorphic.py` applies eleven behaviour-preserving **whole-tree** transformations
+to today's source in memory and every check must stay silent on each ({npairs} transformation x
+property pairs; part of every thorough run; `tools_metamorphic.py` runs them all):
+T1 rename every local variable, T2 swap the operands of every arithmetic `+` / `*`, T3 flip every
+`<` / `<=` / `>` / `>=`, T4 `ast.unparse` every module, T5 a log line after every simple statement of
+non-kernel functions, T6 `return <expr>` through a local, T7 alias read-only `self` attributes into
+locals, T8 flip every `if` (`if c: A else: B` -> `if not c: B else: A`, an else-less `if` gets a `pass`
+branch), T9 call every `self` method with keyword arguments, T10 hoist the first call-valued argument of a
+call into a temporary, T11 inline single-use temporaries.  The first runs produced about thirty alarms
+(rules keyed on local names, operand order, comparison orientation, `return <call>` shapes, `if`
+polarity, positional call arguments); all were removed at the root: `returned_expr`,
+`_var_assigned_from`, `deref`, `guard_conditions`, term-based instead of text-based matches, mirrored
+comparisons in the interval interpreter, canonical `ite` polarity in the term language, and the canonical
+program form of section 10.8.  `ruff format --line-length 140` over the whole tree is silent as well.
+
+### 10.8 Canonical program form (`mdpaxlint/canon.py`, `loader._Canon`) - new since section 3
+
+Rules are written against the shapes the code has today; a maintainer's refactoring changes shape, not
+behaviour.  Instead of teaching every rule every shape, every module is normalised after parsing and
+before any rule sees it (line numbers are kept, so reports still point into the user's file):
+
+| normal form | rewrites |
+|-------------|----------|
+| conditionals | `not not X` -> `X`; `not (a is b)` / `==` / `in` -> the exact complement operator; `if not X: A else: B` -> `if X: B else: A`; `if X: pass else: B` -> `if not X: B`; `if X: A else: <raise/return/break/continue>` -> guard clause `if not X: <...>` followed by `A` (and symmetrically) |
+| statements | `x = a if c else b` (also `return`) -> `if` statement; `setattr(o, "k", v)` -> `o.k = v`; `getattr(o, "k")` -> `o.k`; `for k, v in {<literal>}.items()` / over a literal tuple (also through a local bound once) -> unrolled; a module-level name bound once to a literal is substituted at its uses |
+| calls | `self.m(x=a, y=b)` -> `self.m(a, b)` for resolved methods; library primitives called with their leading parameters by keyword (`lax.scan(f=.., init=.., xs=..)`) are re-ordered inside the interpreter |
+| helpers | a call, in statement position, to a helper **that no rule mentions by name** (i.e. one the rules were not written against - typically a helper a refactoring has just extracted) is replaced by the helper's body: parameters bound, locals renamed, `return` eliminated into assignments; `def h(..): return <expr>` helpers are substituted in any expression position.  Only simple callees (unique resolution - no subclass overrides it -, no decorators other than static/classmethod, no `*args`, no generators, returns only in tail position of if-trees).  A private helper whose every use was inlined is dropped, so rules that enumerate methods do not see its body twice |
+| terms | `ite(not c, a, b)` = `ite(c, b, a)`, `!=` / `<=` conditions flipped to `==` / `<`; `lift_ite` pulls a given conditional to the top (`x = ite(c,a,b); f(x)` = `if c: f(a) else: f(b)`); `maximum(a, b)` of scalars = `max` over the literal `[a, b]`; function-form operators (`jnp.subtract`, `jnp.not_equal`, `jnp.ptp`, `amax`, ...) are the operators; `x.shape[:3][k]` = `x.shape[k]`; `zeros.at[p].set(arange(len(p)))` = `argsort(p)` for a permutation `p`; `itertools.product(X, repeat=n)` = `product(*[X for _ in range(n)])` |
+
+On today's tree 18 call sites are inlined (e.g. `_calculate_single_step_reward` into the three `transition`
+functions, `_clear_value_history`, `_ensure_2d_space`), all checks stay silent and every seeded variant is
+still detected, which is the regression test of the inliner itself.  The anchor set (names never inlined)
+is computed from the string literals of the rule modules, so it cannot drift from the rules.
+
+### 10.9 Independent behaviour-preserving refactorings (`/verif/benign_refactors/`)
+
+The converse of section 10.6.  Five fresh sub-agents per round were given the text of **all** properties (what must
+keep holding), one area of the code each and a scratch worktree, and asked for eight realistic,
+behaviour-preserving refactorings each (extract / inline helpers, guard clauses, table-driven loops,
+hoisted constants, equivalent jnp APIs, keyword arguments, de-duplication ...), each tested by them against
+the relevant tests and, where they chose to, bit-for-bit fingerprints.  `tools_benign_eval.py` applies each patch
+to a scratch copy of `/repo/src` and runs every quick check.
+
+First round, first evaluation: **17 of 40 patches were not silent** (12 false VIOLATIONs, 5 ANALYSIS-ERRORs) -
+far worse than the mechanical transformations of 10.7 had suggested.  Causes and remedies:
+
+| patch (kind) | what broke | remedy |
+|--------------|------------|--------|
+| set3_4, set1_7, set2_3, set2_5, set5_3, set5_4, set5_7, set3_3, set3_6 (extract helper) | protocol rules saw a call instead of the statements; enumerating rules saw a new method | helper inlining + dead-helper dropping (10.8); R10.3's step protocol made name-independent (copies of the `step` argument are followed) |
+| set3_7 (four `if x is not None: config.k = x` -> dict + `setattr` loop) | R10.4 / R12.7 found no guarded writes | literal-loop unrolling + `setattr` normal form |
+| set3_1 (conditional expression, `elif raise`) | R20.8 shape match | IfExp normal form |
+| set3_3, set3_8, set5_8 (constants / tables hoisted to module level) | R20.9 wanted a dict literal inside the function | module-constant substitution |
+| set4_7, set4_6, set2_2 (early returns, flipped branches) | R18.2 / R3.3 compared `reshape(ite(..))` with `ite(reshape(..))` | `lift_ite`, canonical `ite` polarity |
+| set4_2 (`argmax` hoisted into a local) | R17.3 matched the `unravel_index` statement syntactically | the raise message is now a term (`Interp.raise_terms`): the interpolated pair must be components 1 / 0 of `unravel_index(argmax|rows - 1|, shape)` after "state " / "action " |
+| set4_3 (`itertools.product` loop), set3_2 (`lax.scan` by keyword, `[1]` instead of unpacking), set1_8 (temporary for the change count) | interpreter gaps (one internal `IndexError`) | nested-loop desugaring, primitive signatures, block interpretation of the count's backward slice |
+| set4_5 (`arange(min, min + width)`), set5_6 (`product(.., repeat=m)`, `np.tile`), set5_2 (`jnp.maximum(x, 0)`), set1_4 (`jnp.ptp`, `jnp.subtract`) | structural oracles of C14 / C13 / C15 / C01 | element access distributes over pointwise ring expressions of vectors; the equivalences of 10.8 |
+| set1_6, set2_4 (state record built in a local; restore through `super()` and a local alias of `.info`) | `save_paths` / `restore_paths` | both follow single-assignment locals |
+| set2_7 (`argsort(perm)` replaced by the scatter-built inverse) | C06 R6.3 | inverse-permutation equivalence |
+| set4_8 (three nested `vmap`s replaced by flatten - one `vmap` - unflatten through the array's runtime shape) | C17 R17.2 reported a VIOLATION | **not followed**: the kernel IR has no shape algebra for this idiom.  R17.2 now recognises a reshape through the array's own shape in a failing step and ends in ANALYSIS-ERROR (no verdict) instead of a false VIOLATION; listed in `selftest/runner.KNOWN_UNDECIDED` |
+
+After the work: 39 of 40 silent, 1 undecided (exit 2), 0 false VIOLATIONs; every stored seed is still reported
+(`tools_seed_regress.py`), the catalogue matrix is unchanged.  All forty patches are stored and, like the seeds,
+are **standing variants of every thorough run** (each check must stay silent on each).  A second round of forty
+(told what the first round did, asked for more adventurous restructuring) is evaluated the same way; its results
+are appended below.
+
+{round2}
+
+What this buys and what it does not: the canonical form removes the *shape* dependence that realistic
+refactorings exercise most (helpers, guards, constants, tables, temporaries, API spellings).  Refactorings that
+change the *algorithmic idiom* (another way to enumerate a product space, to build an index, to flatten axes)
+can still leave the vocabulary of a term oracle; the design choice for those is exit 2 with the construct named,
+never a VIOLATION, wherever the analyser can tell that it lost track (unknown primitive, reshape through runtime
+shape, loop it cannot summarise), and the rule index below says which rules are term identities (strong, shape-independent
+up to the normaliser) and which are idiom recognisers.
+
+### 10.10 Rule index (generated by `tools_rule_index.py` from the rule modules and today's evidence)
+
+{rule_index}
 
 '''
+
+import json, glob
+npairs = 11 * 19
+rule_index = subprocess.run(['python3','/verif/tools_rule_index.py'],capture_output=True,text=True).stdout
+try:
+    round2 = open('/verif/design_round2.md').read()
+except OSError:
+    round2 = ''
+sec = sec.replace('{table}', table).replace('{npairs}', str(npairs)).replace('{rule_index}', rule_index).replace('{round2}', round2)
 if '### 10.6 Independently seeded changes' in s:
     i=s.index('### 10.6 Independently seeded changes'); j=s.index('## Appendix A')
     s=s[:i]+sec+s[j:]
